@@ -100,3 +100,55 @@ def run_one(data, cuts, tid, shape, cutname, ref_payloads=None):
                       'closed': bool(k.transport.disconnecting), 'work': work, 'over': bool(over), 'payeq': payeq,
                       'exc': len(o['errs']), 'shape': shape, 'cut': cutname})
     return lines, pays
+
+
+def run_long(n, segname, tid, seed=0):
+    """A long run of well-formed messages on one connection: n UPDATEs (each withdrawing its own /32) and a final KEEPALIVE,
+    delivered message by message, in 64 KB reads or in random reads.  The stream is well formed by construction, so the
+    expected outcome needs no reference deframer: every UPDATE reported once, in order, then the KEEPALIVE, nothing else."""
+    import random
+    import struct
+    import wire
+    w, c = SESS.get()
+    M = meter.meter()
+    k = w.conn(c)
+    msgs = [wire.update(withdrawn=wire.prefix4(32, struct.pack('!I', 0x64000000 + j))) for j in range(n)] + [wire.keepalive()]
+    data = b''.join(msgs)
+    if segname == 'permsg':
+        bounds, pos = [], 0
+        for m in msgs:
+            pos += len(m)
+            bounds.append(pos)
+    elif segname == '64k':
+        bounds = list(range(65536, len(data), 65536)) + [len(data)]
+    else:
+        rnd = random.Random(seed)
+        bounds, pos = [], 0
+        while pos < len(data):
+            pos = min(len(data), pos + rnd.choice([1, 7, 19, 23, 28, 29, 500, 4096, 9000, 65536]))
+            bounds.append(pos)
+    reported, ordered, ka, nots, exc, over, others = 0, True, False, [], 0, False, 0
+    pos = 0
+    for b in bounds:
+        chunk = data[pos:b]
+        pos = b
+        _, work, ov = M.run(k.deliver, chunk, budget=6000 + 400 * (len(chunk) + 4115))
+        over = over or bool(ov)
+        o = w.observe()
+        for name, payload in o['rep']:
+            if name == 'update_received':
+                want = '%d.%d.%d.%d/32' % (100, (reported >> 16) & 255, (reported >> 8) & 255, reported & 255)
+                msg = payload.get('msg', payload) if isinstance(payload, dict) else {}
+                if (msg.get('withdraw') if isinstance(msg, dict) else None) != [want]:
+                    ordered = False
+                reported += 1
+            elif name == 'keepalive_received':
+                ka = True
+            elif name in CB:
+                others += 1
+        for d in o['out']:
+            if d['type'] == 'NOTIFICATION':
+                nots.append([d['code'], d['sub']])
+        exc += len(o['errs'])
+    return [{'tid': tid, 'i': 1, 'k': 'long', 'n': n, 'reported': reported, 'ordered': ordered, 'ka': ka, 'others': others, 'nots': nots,
+             'closed': bool(k.transport.disconnecting), 'exc': exc, 'over': over, 'shape': 'LONG=%d' % n, 'cut': segname}]
